@@ -95,7 +95,7 @@ PROPS = {
         comps=['res', 'keyset', 'order', 'ents', 'sizes', 'cur', 'max', 'clone_cap', 'clone_fresh', 'drops', 'bsim'],
         ops=['clone'],
         comps_any=['oth'],
-        theorems=['C14_equal', 'C14_fresh', 'C14_inv', 'C14_footprint_touch', 'C14_footprint_remove', 'C14_footprint_insert', 'C14_independent', 'C14_pointer_level'],
+        theorems=['C14_equal', 'C14_fresh', 'C14_inv', 'C14_footprint_touch', 'C14_footprint_remove', 'C14_footprint_insert', 'C14_independent', 'C14_pointer_level', 'C14_clone_no_fault'],
         assumptions=['independence is observed as: after every operation on one cache the structural fingerprint (addresses, links, sizes, scalars) of every other live cache is bit-for-bit unchanged (flag oth)'],
     ),
     'C15': dict(
@@ -116,7 +116,7 @@ PROPS = {
     'C17': dict(
         comps=['drop_once', ('mon_c06', ITERS), ('res', ITERS), ('drops', ITERS), ('ents', ['drain']), ('cur', ['drain']), ('keyset', ['drain']),
                ('mon_c07', ['drain']), ('mon_c02', ['drain']), ('mon_c01', ['drain']), ('bsim', ITERS), ('brefine', ITERS)], corr_only=['brefine'], bodies=['TakingIterator::', 'Drain::new'],
-        theorems=['C17_taking_run', 'C17_drain_forget', 'C17_into_iter_forget', 'C17_into_iter_pointer_level', 'C17_drop_pointer_level'],
+        theorems=['C17_taking_run', 'C17_drain_forget', 'C17_into_iter_forget', 'C17_into_iter_pointer_level', 'C17_drop_pointer_level', 'C17_into_iter_no_fault'],
         assumptions=['mem::forget of Drain / IntoIter / IntoKeys / IntoValues after every generated prefix of next/next_back calls, followed by further use and drop of the cache; borrowing iterators own nothing, forgetting them is a no-op'],
     ),
     'C18': dict(engine='sig_check', level='translation_validation', comps=[],
